@@ -342,5 +342,52 @@ pub fn run(ctx: &Ctx, st: &mut Stats) {
         st.count("chained_range_calls");
         st.nontrivial_key(hash64(&format!("ch{}{}{:?}", c.start, c.end, site2)));
     }
+    // short ranges x real-valued GMT offsets: the range route may derive a date's Julian day differently from the
+    // single-date route (base + k instead of a fresh conversion); the two agree for "round" offsets and differ in the
+    // last bit for a few real ones. 2-4 day ranges across every day-of-month, month and year boundary, each compared with
+    // the single-date API; then, on the same thread, the day AFTER the range for a site in another zone, compared with
+    // the same call made on a fresh thread (state the range route leaves behind must not leak into later calls)
+    {
+        let ns = ctx.quota(240_000, 12_000_000);
+        let mut rs = Rng::new(ctx.seed, 1402, ctx.shard);
+        for i in 0..ns {
+            let lon = rs.range(-180.0, 180.0);
+            let gmt = match i % 4 {
+                0 => rs.range(-12.0, 12.0),
+                1 => (lon / 15.0).clamp(-12.0, 12.0),
+                2 => (rs.range(-12.0, 12.0) * 1000.0).round() / 1000.0,
+                _ => (lon / 15.0 + rs.range(-1.0, 1.0)).clamp(-12.0, 12.0),
+            };
+            let site = Site::new(rs.range(-60.0, 60.0), lon, 0.0, gmt);
+            let s = from_ce(rs.int(day_lo() as i64, day_hi() as i64 - 10) as i32);
+            let e = from_ce(ce(s) + rs.int(1, 3) as i32);
+            let method = rs.int(1, 8) as usize;
+            let c = Case { start: d2s(s), end: d2s(e), parts: vec![], rng: Some((site, method, false)), custom: None };
+            st.tick();
+            match guarded(|| rng_check(None, s, e, site, method, false, &None)) {
+                Ok(Ok(days)) => {
+                    st.evaluations += 1 + days;
+                    st.decided += 1;
+                }
+                Ok(Err(d)) => st.violate("range_api_differs", &c, d),
+                Err(pm) => st.violate("range_api_panic", &c, json!({"panic": pm})),
+            }
+            if i % 8 == 0 {
+                let p = params_for(method, false);
+                let other = Site::new(site.lat.0, site.lon.0, 0.0, if gmt > 0.0 { gmt - rs.range(0.5, 6.0) } else { gmt + rs.range(0.5, 6.0) });
+                let next = from_ce(ce(e) + 1);
+                let here = guarded(|| prayer_times_dt(&p, other.loc(), next, None));
+                let fresh = std::thread::spawn(move || guarded(|| prayer_times_dt(&p, other.loc(), next, None))).join();
+                st.evaluations += 2;
+                if let (Ok(a), Ok(Ok(b))) = (&here, &fresh) {
+                    if a != b {
+                        st.violate("range_api_differs", &c, json!({"why": "a single-date call made right after the range call (next day, another zone, same thread) differs from the same call on a fresh thread", "site_of_the_later_call": other, "date": d2s(next), "after_range_call": res_json(a), "fresh_thread": res_json(b)}));
+                    }
+                }
+                st.count("single_date_calls_right_after_a_range_call(next day, other zone)");
+            }
+        }
+        st.add("short_ranges_with_real_valued_offsets", ns);
+    }
     st.extra.insert("rule".into(), json!("exhaustive: 60+ hostile start dates x spans -5..70 x part counts 0..64 (num_days and partition against the day-count model; the sequential range API against the single-date API on a rotating subset, reversed/empty ranges in a guarded subprocess with 20 CPU-s / 3 GB limits); seeded random: spans -2000..2000, part counts 0..64; every range is non-trivial (distinct (start,end) by hash)"));
 }
